@@ -2,8 +2,11 @@ package vlib
 
 import (
 	"crypto/sha256"
+	"encoding/json"
 	"fmt"
 	"math/big"
+	"os"
+	"path/filepath"
 	"reflect"
 	"regexp"
 	"sort"
@@ -38,19 +41,20 @@ type towerType struct {
 }
 
 type towerChk struct {
-	r     *Run
-	g     string
-	s     *TowerSpec
-	T     *Tower
-	types map[string]*towerType
-	byRT  map[reflect.Type]*towerType
-	n     int
-	unmod map[string]bool
-	frob  map[string][][]*big.Int
-	ctr   int
-	msecs map[string]float64
-	mcur  string
-	mt0   time.Time
+	r       *Run
+	g       string
+	s       *TowerSpec
+	T       *Tower
+	types   map[string]*towerType
+	byRT    map[reflect.Type]*towerType
+	n       int
+	unmod   map[string]bool
+	frob    map[string][][]*big.Int
+	ctr     int
+	cyCache map[int][]namedElt
+	msecs   map[string]float64
+	mcur    string
+	mt0     time.Time
 }
 
 // per-method wall time (reported in the evidence sample when above 2 s)
@@ -320,6 +324,66 @@ func product(menus [][][]*big.Int, f func(sel [][]*big.Int)) {
 
 // cyclotomic subgroup members of the top level built in the model by the easy part of the final exponentiation
 func (c *towerChk) cyclo(level int) []namedElt {
+	if v, ok := c.cyCache[level]; ok {
+		return v
+	}
+	v := c.cyclo0(level)
+	if c.cyCache == nil {
+		c.cyCache = map[int][]namedElt{}
+	}
+	c.cyCache[level] = v
+	return v
+}
+
+// witnesses found by earlier runs are kept in /verif/data/witnesses (they depend on the documented tower only, not on
+// the library) and are re-validated by the caller on every load
+func (c *towerChk) witnessFile() string {
+	return filepath.Join(Root, "data", "witnesses", c.s.Name+".json")
+}
+
+func (c *towerChk) cachedWitness(slot int) ([]*big.Int, string) {
+	b, err := os.ReadFile(c.witnessFile())
+	if err != nil {
+		return nil, "no cache"
+	}
+	m := map[string][]string{}
+	if json.Unmarshal(b, &m) != nil {
+		return nil, "bad cache"
+	}
+	hs, ok := m[fmt.Sprint(slot)]
+	if ok && len(hs) == 0 {
+		return nil, "cached: no root on 8 lines"
+	}
+	if !ok || len(hs) != c.T.Dim(c.T.Top()) {
+		return nil, "not cached"
+	}
+	w := make([]*big.Int, len(hs))
+	for i, h := range hs {
+		v, ok := new(big.Int).SetString(h, 16)
+		if !ok || v.Sign() < 0 || v.Cmp(c.T.P) >= 0 {
+			return nil, "bad cache entry"
+		}
+		w[i] = v
+	}
+	return w, ""
+}
+
+func (c *towerChk) storeWitness(slot int, w []*big.Int) {
+	m := map[string][]string{}
+	if b, err := os.ReadFile(c.witnessFile()); err == nil {
+		json.Unmarshal(b, &m)
+	}
+	hs := make([]string, len(w))
+	for i := range w {
+		hs[i] = w[i].Text(16)
+	}
+	m[fmt.Sprint(slot)] = hs
+	b, _ := json.MarshalIndent(m, "", " ")
+	os.MkdirAll(filepath.Dir(c.witnessFile()), 0o755)
+	os.WriteFile(c.witnessFile(), b, 0o644)
+}
+
+func (c *towerChk) cyclo0(level int) []namedElt {
 	T := c.T
 	d := T.Dim(level)
 	var out []namedElt
@@ -359,6 +423,41 @@ func (c *towerChk) cyclo(level int) []namedElt {
 	}
 	for i, gt := range c.s.GTElts {
 		out = append(out, namedElt{fmt.Sprintf("GT-%d", i), gt})
+	}
+	// degenerate witnesses: cyclotomic members with one zero slot (the g3 = 0 / g2 = 0 / ... branches of the compressed
+	// squaring), and their square roots in the (odd-order) cyclotomic subgroup so that the compressed square lands on them
+	if level == T.Top() && d%6 == 0 {
+		slots := []int{2, 3, 5}
+		if !c.s.Quick {
+			slots = []int{0, 1, 2, 3, 4, 5}
+		}
+		// N = Phi_d(p): p^4-p^2+1 (12), p^8-p^4+1 (24), p^2-p+1 (6)
+		pk := new(big.Int).Exp(T.P, big.NewInt(int64(d/6)), nil)
+		N := new(big.Int).Mul(pk, pk)
+		N.Sub(N, pk).Add(N, big.NewInt(1))
+		half := new(big.Int).Rsh(new(big.Int).Add(N, big.NewInt(1)), 1)
+		found := 0
+		for _, sl := range slots {
+			w, why := c.cachedWitness(sl)
+			if w == nil && why != "cached: no root on 8 lines" {
+				w, why = DegenerateCyclotomic(T, sl, c.frobenius, c.rnd)
+				if os.Getenv("VERIF_WRITE_WITNESSES") != "" {
+					c.storeWitness(sl, w) // (nil is recorded as an empty entry: the search is not repeated on every run)
+				}
+			}
+			if w == nil {
+				c.unmod[fmt.Sprintf("degenerate cyclotomic witness for slot %d not found: %s", sl, why)] = true
+				continue
+			}
+			kd := d / 6
+			if !T.IsZero(w[sl*kd:(sl+1)*kd]) || !T.Equal(T.Exp(w, N), T.One(level)) || T.Equal(w, T.One(level)) {
+				c.r.Harness("invalid degenerate witness synthesised for " + c.s.Name)
+			}
+			found++
+			out = append(out, namedElt{fmt.Sprintf("cyclotomic-with-zero-slot-%d", sl), w})
+			out = append(out, namedElt{fmt.Sprintf("square-root-of-cyclotomic-with-zero-slot-%d", sl), T.Exp(w, half)})
+		}
+		c.r.Note("degenerate_witnesses", c.s.Name, found)
 	}
 	return out
 }
